@@ -110,11 +110,27 @@ impl Responder {
             .online_key
             .make_srep(self.version, SystemTime::now(), &merkle_root);
 
+        #[cfg(roughenough_verif)]
+        crate::verif::emit(
+            "signed",
+            vec![
+                ("ver", crate::verif::V::S(self.version.to_string())),
+                ("n", crate::verif::V::U(self.requests.len() as u64)),
+            ],
+        );
+
         for (idx, (nonce, src_addr)) in self.requests.iter().enumerate() {
             let paths = self.merkle.get_paths(idx);
+            #[cfg(roughenough_verif)]
+            let mut verif_greased = false;
+
             let resp_msg = {
                 let r = self.make_response(&srep, &self.cert_bytes, &paths, idx as u32, nonce);
                 if self.grease.should_add_error() {
+                    #[cfg(roughenough_verif)]
+                    {
+                        verif_greased = true;
+                    }
                     self.grease.add_errors(&r)
                 } else {
                     r
@@ -133,6 +149,19 @@ impl Responder {
                 Ok(num_bytes) => bytes_sent = num_bytes,
                 Err(_) => successful_send = false,
             }
+
+            #[cfg(roughenough_verif)]
+            crate::verif::emit(
+                "sent",
+                vec![
+                    ("ver", crate::verif::V::S(self.version.to_string())),
+                    ("idx", crate::verif::V::U(idx as u64)),
+                    ("dst", crate::verif::V::S(src_addr.to_string())),
+                    ("len", crate::verif::V::U(resp_bytes.len() as u64)),
+                    ("ok", crate::verif::V::B(successful_send)),
+                    ("greased", crate::verif::V::B(verif_greased)),
+                ],
+            );
 
             debug!(
                 "Thread {} responded {} {} bytes to {} for '{}..' (#{} in batch)",
